@@ -11,6 +11,7 @@
               Optional d = [res, obs]: the same operation executed directly on a twin
               StorageServer (C31): its result and the twin's share files.
      Advance  virtual time passes on both servers (obsall: every storage index read back).
+     ClientRead0  a zero-length read through the client classes and directly.
    The verdict for an event is the name of the first clause that fails. *)
 EXTENDS StorageHTTP, Json, IOUtils, TLCExt
 
@@ -103,8 +104,16 @@ VAdvance(e) ==
   ELSE IF "dobsall" \in DOMAIN e /\ ~ObsAllOK(T.S, e.dobsall) THEN V("C31_agree_state_after_timeout", H)
   ELSE V("", T)
 
+\* a read of length zero through the HTTP client: the statement asks for what the direct call gives (no bytes)
+VClientRead0(e) ==
+  LET r == NormReq(e.r) IN
+  IF NormD(r, e.d.res) # DirectView(H, r) THEN V("C31_direct_result", H)
+  ELSE IF e.got # "empty" THEN V("C31_zero_length_read", H)
+  ELSE V("", H)
+
 Verdict(e) ==
   CASE e.ev = "Req"     -> VReq(e)
+    [] e.ev = "ClientRead0" -> VClientRead0(e)
     [] e.ev = "Advance" -> VAdvance(e)
     [] OTHER            -> V("unknown_event", H)
 
